@@ -286,3 +286,22 @@ Section ExporterAsCodedFacts.
     intros is_client v secret label n Hs. unfold export_as_coded. rewrite Hs. reflexivity.
   Qed.
 End ExporterAsCodedFacts.
+
+(* ------------------------------------------------------------------ the session's name under a ServerHello hook *)
+
+(* whatever id the hook writes, both sides name (and store) the session alike: the next ClientHello offers an id the
+   server's store knows *)
+Theorem session_named_alike generated sh_id :
+  server_session_name generated sh_id = client_session_name sh_id.
+Proof. reflexivity. Qed.
+
+(* before 6fdd853: the server kept the id it generated *)
+Theorem session_named_before_the_hook_refuted :
+  exists generated sh_id, server_session_name_sw false generated sh_id <> client_session_name sh_id.
+Proof. exists [1], [2]. discriminate. Qed.
+
+Theorem session_name_as_coded :
+  if server_names_session_as_final_server_hello
+  then forall generated sh_id, server_session_name generated sh_id = client_session_name sh_id
+  else exists generated sh_id, server_session_name generated sh_id <> client_session_name sh_id.
+Proof. cbv iota beta delta [server_names_session_as_final_server_hello]. exact session_named_alike. Qed.
